@@ -11,6 +11,11 @@ CHECKS = {
         technique="translation validation: symbolic execution of the emitted TEAL (SymAVM on z3) vs recipe reference semantics, one SMT obligation per path pair, counterexamples replayed concretely",
         text="For every enumerated program (operator sweep, control skeletons, environment/state/inner-transaction programs, seeded random programs in the thorough tier) at every version/mode where it compiles, z3 shows that the emitted TEAL and the reference semantics of the recipe agree on verdict, return value and ordered effects for ALL inputs within the stated bounds (loop iterations, recursion depth, byte-string lengths). Programs are enumerated to a bound; inputs are symbolic.",
         note="Trusted: TEAL op semantics in verif/avm (shared by both sides for primitive operators), recipe semantics in verif/recipe/ref.py, z3. Bounds: loop iterations K, call depth D, listed byte lengths; crypto ops uninterpreted; opcode budget not modelled."),
+    "C02": dict(
+        category="translation_validation", design_ref="DESIGN.md 3/C02",
+        technique="translation validation: SymAVM(emitted TEAL) vs recipe semantics with a call stack, whole-program (bounded recursion depth) and routine-level with havoc'd callees (one inductive step, any depth); SMT obligation per path pair; models replayed concretely",
+        text="For every enumerated program with routines (self/mutual recursion incl. routines of different arities and result kinds, by-value and by-reference parameters, call sites in statement position and under pending operands, Return at several body positions, locals that must survive calls) under every calling-convention option (versions 4..10, frame_pointers default/off, scratch_slots on/off), z3 shows emitted TEAL and reference agree for ALL inputs up to the recursion-depth bound; additionally each routine is checked in isolation from an arbitrary caller cell with every callee replaced by an arbitrary one that clobbers all scratch slots when it can re-enter, which covers the spill/restore code for any depth.",
+        note="Trusted: TEAL op semantics (verif/avm), recipe call semantics (verif/recipe/ref.py, verif/modular.py), z3. Bounds: recursion depth D and loop K for whole-program runs; routine-level runs exclude by-reference parameters and shared variables."),
     "C16": dict(
         category="other", design_ref="DESIGN.md 3/C16",
         technique="SMT (z3 nonlinear integer arithmetic) Hoare contracts over segments of the emitted WideRatio TEAL at full 64-bit width + whole-program bit-vector equivalence at narrow word widths; models replayed on the emitted code",
